@@ -175,6 +175,13 @@ set_option maxRecDepth 20000 in
 example : validate { E0 with appAt := fun _ _ => some { pubRaw := hexOf "ab" 32, chains := ["0001"], maxRelays := 1 },
                              nodeCount := fun _ => 3 } r0 9 = .fail .fatal := by decide +kernel
 
+/-- The tolerance window does not look at the session grid: with an allowance of one session a
+height that is *not* the first block of a session passes (replayed through `HandleRelay`:
+`served-session-height-not-a-session-start`). -/
+theorem tolerance_accepts_non_session_start :
+    withinTolerance { E0 with height := 69, sessionAllowance := 1 } 68 = true ∧ (68 - 1) % 4 ≠ 0 := by
+  decide +kernel
+
 /-- With the default allowance 0 the window is the single height `latest`, which is on the grid. -/
 theorem tolerance_zero_is_latest (E : Env) (sbh : Int) (h0 : E.sessionAllowance = 0)
     (h : withinTolerance E sbh = true) : sbh = latestSessionHeight E.height E.bps := by
